@@ -10,21 +10,24 @@ class C15(Prop):
     ID = "C15"
     PROPS_FILE = "Props/C15.v"
     CORR_MODULE = "JobDirs.Corr"
-    MAX_WORKERS = 6
-    CASE_TIMEOUT = 120
-    SHARD_TIMEOUT = 900
+    MAX_WORKERS = 4
+    CASE_TIMEOUT = 900          # a 9-job two-node case needs ~4 s on a calm machine, 40 s at load 60, >120 s observed
+    SHARD_TIMEOUT = 7200
     LEVEL_TEXT = ("Theorems (Coq, closed under the global context): directories not fixed by the step are pairwise "
                   "distinct for distinct (job, role) for any number of jobs, given an injective name source (uuid4); "
                   "fixed directories are used verbatim; after the registration loop of ScheduleStep._schedule every "
                   "directory is available in the C21 registry model on every allocated location, from any registry "
                   "state, and stays so; mkdir -p on an abstract file system makes the directory and its ancestors "
-                  "exist. The real ScheduleStep is run (local deployment, and a shell-backed remote deployment of 2..3 "
+                  "exist; the realpath branch of the registration loop (SYMBOLIC_LINK + real path) is modelled with the "
+                  "file system's answer as an oracle and the same availability theorem holds for every oracle. The real "
+                  "ScheduleStep is run (local deployment, and a shell-backed remote deployment of 2..3 "
                   "nodes with separate directories reached through /bin/sh and jobs allocated on 1 or 2 nodes; 1..10 "
                   "concurrent jobs of one step, with and without fixed directories) and its JobTokens, the real file "
                   "system of every allocated node and get_data_locations per node are compared with the model and "
                   "judged by an oracle written from the property text.")
     LEVEL_NOTE = ("Partial: the file system is an abstract set in the model (real mkdir only exercised: local location and "
-                  "shell-backed nodes); symbolic-link work directories and wrapped locations are not covered by the "
+                  "shell-backed nodes, one of them with a symbolic-link work directory in some cases); wrapped locations and a "
+                  "symbolic-link work directory on the FIRST allocated location are not covered by the "
                   "correspondence; task interleavings are sampled by seeded permutations, not enumerated; uuid4 uniqueness is an assumption. No axioms.")
     TECHNIQUE = "Coq proof over a hand-written model (on top of the C21 registry model) + vm_compute correspondence"
     RULE = ("a ScheduleStep receives n in 1..10 (thorough: ..40) tokens with distinct tags, so that n jobs are scheduled "
@@ -43,7 +46,7 @@ class C15(Prop):
                    "the work directory of the target is not a symbolic link (realpath == directory)")
 
     def gen(self, rng, tier):
-        n = {"quick": 20, "thorough": 80, "extended": 60}[tier]
+        n = {"quick": 24, "thorough": 80, "extended": 60}[tier]   # 24 -> two worker shards
         hi = 10 if tier == "quick" else 40
         cases = []
         for i in range(n):
@@ -56,6 +59,10 @@ class C15(Prop):
             if i % 2 == 1:
                 # shell-backed remote deployment with 2..3 nodes; a job takes 1 or 2 of them
                 c.update({"dep": "shell", "nodes": rng.choice([2, 2, 3]), "locations": rng.choice([1, 2, 2])})
+                if i % 6 == 3:
+                    # on node n2 the work directory is a symbolic link: the directories resolve elsewhere there, so
+                    # _schedule takes its realpath branch (n1 stays the first location: both nodes are allocated)
+                    c.update({"nodes": 2, "locations": 2, "symlink": ["n2"]})
             if i % 4 >= 2 or i == 1:
                 # seeded task interleaving: the ready task steps of every event-loop turn are permuted with this seed
                 c["sched"] = rng.randrange(1, 10**6)
@@ -88,16 +95,17 @@ class C15(Prop):
 
             VROOT = "/sfvroot"
 
-            def __init__(self, deployment_name, config_dir, root, nodes, transferBufferSize=2**16):
+            def __init__(self, deployment_name, config_dir, root, nodes, symlink=None, transferBufferSize=2**16):
                 super().__init__(deployment_name, config_dir, transferBufferSize)
-                self.root, self.nodes = root, nodes
+                self.root, self.nodes, self.symlink = root, nodes, symlink or []
 
             @classmethod
             def get_schema(cls):
                 return json.dumps({"$schema": "https://json-schema.org/draft/2020-12/schema",
                                    "$id": "https://streamflow.di.unito.it/schemas/verif/shellnodes.json",
                                    "type": "object",
-                                   "properties": {"root": {"type": "string"}, "nodes": {"type": "integer"}},
+                                   "properties": {"root": {"type": "string"}, "nodes": {"type": "integer"},
+                                                  "symlink": {"type": "array", "items": {"type": "string"}}},
                                    "required": ["root", "nodes"], "additionalProperties": False})
 
             def node_dir(self, name):
@@ -105,7 +113,11 @@ class C15(Prop):
 
             async def deploy(self, external):
                 for k in range(self.nodes):
-                    os.makedirs(self.node_dir(f"n{k + 1}"), exist_ok=True)
+                    d = self.node_dir(f"n{k + 1}")
+                    os.makedirs(d, exist_ok=True)
+                    if f"n{k + 1}" in self.symlink:        # <node>/sfvroot/wd -> realwd
+                        os.makedirs(os.path.join(d, "realwd"), exist_ok=True)
+                        os.symlink("realwd", os.path.join(d, "wd"))
 
             async def get_available_locations(self, service=None):
                 return {f"n{k + 1}": AvailableLocation(name=f"n{k + 1}", deployment=self.deployment_name,
@@ -168,7 +180,8 @@ class C15(Prop):
             wf = m["Workflow"](ctx, config={}, name="w")
             if shell:
                 dc = m["DeploymentConfig"](name="nodes", type="sfv-shellnodes",
-                                           config={"root": os.path.join(base, "remote"), "nodes": c["nodes"]},
+                                           config={"root": os.path.join(base, "remote"), "nodes": c["nodes"],
+                                                   "symlink": c.get("symlink", [])},
                                            external=False, lazy=False, workdir=wd)
             else:
                 dc = m["DeploymentConfig"](name="__LOCAL__", type="local", config={}, external=True, lazy=False, workdir=wd)
@@ -195,7 +208,12 @@ class C15(Prop):
                     def real(loc, d):
                         return os.path.join(base, "remote", loc.name) + d if shell else d
 
-                    jobs.append({"name": j.name, "dirs": dirs, "locs": sorted(l.name for l in locs),
+                    extra = {}
+                    if c.get("symlink"):
+                        extra["reg"] = [[sorted([x.deployment, x.name, x.path, x.data_type.name]
+                                                for x in ctx.data_manager.get_data_locations(d, dc.name, f"n{k + 1}"))
+                                         for k in range(c["nodes"])] for d in dirs]
+                    jobs.append({**extra, "name": j.name, "dirs": dirs, "locs": sorted(l.name for l in locs),
                                  "exist": [[l.name for l in locs if not os.path.isdir(real(l, d))] for d in dirs],
                                  "registered": [[l.name for l in locs if not ctx.data_manager.get_data_locations(
                                      d, l.deployment, l.name)] for d in dirs]})
@@ -232,13 +250,17 @@ class C15(Prop):
             if not d.startswith(vbase + "/"):
                 return "!" + d
             cs = comps(d[len(vbase):])
-            if len(cs) == 2 and cs[0] == "wd":
+            if len(cs) == 2 and cs[0] in ("wd", "realwd"):
                 cs[1] = names.setdefault(cs[1], f"u{len(names)}")
             return "/B/" + "/".join(cs)
 
         ob["jobs"].sort(key=lambda j: [int(x) for x in j["name"].rsplit("/", 1)[1].split(".")])
         for j in ob["jobs"]:
             j["dirs"] = [canon(d) for d in j["dirs"]]
+        for j in ob["jobs"]:                      # after every directory got its canonical name
+            if "reg" in j:
+                j["reg"] = [[sorted([it[0], it[1], canon(it[2]), it[3]] for it in items) for items in per_dir]
+                            for per_dir in j["reg"]]
         return ob
 
     # ---------------------------------------------------------------- oracle (from the property text)
@@ -285,6 +307,16 @@ class C15(Prop):
             jobs.append(f"CJob {self._cpath(j['dirs'][0])} {self._cpath(j['dirs'][1])} {self._cpath(j['dirs'][2])} "
                         f"{coq_bool(not any(j['exist']))} {coq_bool(not any(j['registered']))}")
         f = "mkfixed " + " ".join(coq_opt(("/B/" + x) if x else None, self._cpath) for x in c["fix"])
+        if c.get("symlink"):
+            if any("reg" not in j for j in o["jobs"]):
+                return None
+            tab = coq_list([f'mkloc ({coq_str("nodes")}, {coq_str(f"n{k + 1}")}) false None []' for k in range(c["nodes"])])
+            syms = coq_list([f"{int(n[1:]) - 1}%nat" for n in c["symlink"]])
+            item = lambda it: f"(({coq_str(it[0])}, {coq_str(it[1])}), {self._cpath(it[2])}, {it[3]})"
+            obs = coq_list([coq_list([coq_list([coq_list([item(it) for it in items]) for items in per_dir])
+                                      for per_dir in j["reg"]]) for j in o["jobs"]])
+            return (f"CJobsRp {self._cpath('/B/wd')} {self._cpath('/B/realwd')} {syms} {tab} ({f}) "
+                    f"{coq_list([coq_str(n) for n in names])} {coq_list(jobs)}\n   {obs}")
         return f"CJobs {self._cpath('/B/wd')} ({f}) {coq_list([coq_str(n) for n in names])} {coq_list(jobs)}"
 
     def nontrivial(self, c):
